@@ -279,34 +279,49 @@ func (tp *ACLTemplatedPolicy) aclTemplatedPolicyRules(entMeta *acl.EnterpriseMet
 }
 
 // Deduplicate returns a new list of templated policies without duplicates.
-// compares values of template variables to ensure no duplicates
+// compares values of template variables to ensure no duplicates. Two entries
+// are duplicates only if they also have the same datacenter scope: an entry
+// scoped to other datacenters grants something the first one does not, so
+// dropping it would make the result depend on the order of the list.
 func (tps ACLTemplatedPolicies) Deduplicate() ACLTemplatedPolicies {
-	list := make(map[string][]ACLTemplatedPolicyVariables)
 	var out ACLTemplatedPolicies
 
 	for _, tp := range tps {
-		// checks if template name already in the unique list
-		_, found := list[tp.TemplateName]
-		if !found {
-			list[tp.TemplateName] = make([]ACLTemplatedPolicyVariables, 0)
-		}
 		templateSchema := aclTemplatedPoliciesList[tp.TemplateName].Schema
 
-		// if schema is empty, template does not require variables
-		if templateSchema == "" {
-			if !found {
-				out = append(out, tp)
+		duplicate := false
+		for _, seen := range out {
+			if seen.TemplateName != tp.TemplateName || !sameDatacenterScope(seen.Datacenters, tp.Datacenters) {
+				continue
 			}
-			continue
+			// if schema is empty, template does not require variables
+			if templateSchema == "" || *seen.TemplateVariables == *tp.TemplateVariables {
+				duplicate = true
+				break
+			}
 		}
-
-		if !slices.Contains(list[tp.TemplateName], *tp.TemplateVariables) {
-			list[tp.TemplateName] = append(list[tp.TemplateName], *tp.TemplateVariables)
+		if !duplicate {
 			out = append(out, tp)
 		}
 	}
 
 	return out
+}
+
+// sameDatacenterScope reports whether two datacenter lists name the same set
+// of datacenters (the empty list means every datacenter).
+func sameDatacenterScope(a, b []string) bool {
+	for _, dc := range a {
+		if !slices.Contains(b, dc) {
+			return false
+		}
+	}
+	for _, dc := range b {
+		if !slices.Contains(a, dc) {
+			return false
+		}
+	}
+	return true
 }
 
 func GetACLTemplatedPolicyBase(templateName string) (*ACLTemplatedPolicyBase, bool) {
